@@ -161,6 +161,18 @@ func (g *G) AuthzFor(known []ref.Pred, maxFacts, maxRules, maxChecks, maxPolicie
 			}
 		}
 	}
+	if maxRules >= 1 && g.R.Intn(6) == 0 {
+		// a rule without body atoms (a constant switch: ground head, expressions only); a policy or a
+		// check asks for what it derives
+		h := g.Fact()
+		h.Name = "switch_" + h.Name
+		a.Rules = append(a.Rules, ref.Rule{Head: h, Exprs: []ref.Expr{ref.Bin(">", ref.Leaf(ref.Int(2)), ref.Leaf(ref.Int(1)))}})
+		if g.R.Intn(2) == 0 {
+			a.Checks = append(a.Checks, ref.Check{Queries: []ref.Rule{{Head: ref.Pred{Name: "query"}, Body: []ref.Pred{h}}}})
+		} else {
+			a.Policies = append(a.Policies, ref.Policy{Allow: g.R.Intn(2) == 0, Queries: []ref.Rule{{Head: ref.Pred{Name: "query"}, Body: []ref.Pred{h}}}})
+		}
+	}
 	for i := g.R.Intn(maxPolicies + 1); i > 0; i-- {
 		if g.R.Intn(2) == 0 {
 			a.Policies = append(a.Policies, ref.Policy{Allow: g.R.Intn(3) != 0, Queries: []ref.Rule{g.QueryFrom(pool)}})
